@@ -15,6 +15,7 @@ mod working_memory;
 mod rete_agenda;
 mod modules;
 mod agenda_mgr;
+mod bc_memo;
 
 pub type W = (&'static str, fn() -> (bool, String));
 
@@ -31,6 +32,7 @@ fn main() {
     all.extend(rete_agenda::witnesses());
     all.extend(modules::witnesses());
     all.extend(agenda_mgr::witnesses());
+    all.extend(bc_memo::witnesses());
     let mut ran = false;
     for (n, f) in &all {
         if name == "all" || n.starts_with(&name) {
